@@ -1,6 +1,7 @@
 import TucanProofs.Lemmas.Pipeline
 import TucanProofs.Lemmas.OracleNonempty
 import TucanProofs.Examples
+import TucanProofs.Lemmas.FilesPerm
 /-!
 # C01 — the TUCAN string is invariant under atom/bond reordering of the input
 
@@ -28,6 +29,21 @@ theorem C01_listing_independent (O : CanonOracle) (g g' : Graph) (s s' : Str)
     (hw : g.WF) (hs : g.Simple) (hw' : g'.WF) (hs' : g'.Simple)
     (h : tucanOf O.order g = .ok s) (h' : tucanOf O.order g' = .ok s') : s = s' :=
   tucan_invariant O iso hchem hw hs hw' hs' h h'
+
+/-- **C01 at the level of files.**  Two molfile texts — each V3000 (with any pairwise distinct atom indices in any
+order: `C06_v3000_file_any_indices`) or V2000 — are read as graphs of molecules `m` and `m'` (`IsGraphOf`).  If
+`m'` is `m` with its atoms listed in another order (`σ`, inverse `τ`), its bonds renumbered accordingly and
+listed in any order and orientation (`SameMolecule`), the two files get the same string — whatever their
+numbering, listing order and bond direction. -/
+theorem C01_files_same_string (O : CanonOracle) (σ τ : Nat → Nat) (m m' : Mol) (hm : m.Ok) (hm' : m'.Ok)
+    (same : SameMolecule σ τ m m') (c c' : List (Str × Str × Str))
+    (hc : c.length = m.atoms.length) (hc' : c'.length = m'.atoms.length)
+    (text text' : Str) (g g' : Graph)
+    (hr : graphFromMolfileText text = .ok g) (hr' : graphFromMolfileText text' = .ok g')
+    (hg : IsGraphOf g m c) (hg' : IsGraphOf g' m' c') (s s' : Str)
+    (hs : tucanOf O.order g = .ok s) (hs' : tucanOf O.order g' = .ok s') : s = s' := by
+  have _ := hr; have _ := hr'
+  exact isGraphOf_same_string_perm O σ τ m m' hm hm' same c c' hc hc' g g' hg hg' s s' hs hs'
 
 /-- the contract the theorem quantifies over is satisfiable -/
 theorem C01_oracle_contract_inhabited : Nonempty CanonOracle := CanonOracle.nonempty
